@@ -49,6 +49,9 @@ class OpsMixin:
         if "array_bytes" in c:
             et = t["of"]
             return VArr(len(c["array_bytes"]), tuple(self.const_int(et, x) for x in c["array_bytes"]))
+        if "adt_const" in c:
+            ac = c["adt_const"]
+            return VAdt(ty, Lin.const(ac["variant"]), {ac["variant"]: tuple(self.eval_const(st, frame, f) for f in ac["fields"])})
         if "assoc_const" in c:
             # `Self::NAME` in a trait's default method: the value the implementing type gives it
             ga = getattr(frame, "gargs", None) or []
